@@ -125,3 +125,26 @@ Section PersistCurve.
 End PersistCurve.
 
 Arguments JNum {N}. Arguments JNat {N}. Arguments JList {N}. Arguments JNull {N}. Arguments JCType {N}.
+
+(* ---------------- DiffusionCurveSet.load ----------------
+   data.groupby("curve_id") iterates the distinct identifiers in ascending order; every group keeps the lines of the file
+   in file order; each group goes through from_frame.  (Identifiers are modelled as numbers: pandas reads an all-numeric
+   column as integers and sorts it numerically; the mixture is looked up per group by name — the model takes it as given.) *)
+Section PersistCurveSet.
+  Context (N : NumOps).
+  Local Notation Cell := (Cell N).
+
+  Definition row_id (row : list Cell) : nat := match col N 0 row with CName k => k | _ => 0 end.
+
+  Fixpoint insert_id (k : nat) (l : list nat) : list nat :=
+    match l with
+    | [] => [k]
+    | h :: t => if Nat.ltb k h then k :: l else if Nat.eqb k h then l else h :: insert_id k t
+    end.
+  (* ascending, duplicate-free list of the identifiers that occur *)
+  Definition curve_ids (table : list (list Cell)) : list nat := fold_right (fun r acc => insert_id (row_id r) acc) [] table.
+  Definition group_of (k : nat) (table : list (list Cell)) : list (list Cell) := filter (fun r => Nat.eqb (row_id r) k) table.
+
+  Definition load_set (PP : PPfun N) (m : Mixture N) (table : list (list Cell)) : res (list (Curve N)) :=
+    mapM (fun k => load_curve N PP m (group_of k table)) (curve_ids table).
+End PersistCurveSet.
